@@ -56,7 +56,7 @@ struct LifeJobs<'a> {
 fn zst_tweak(i: &Info, c: &mut LifeCfg, depth: &mut usize) {
     if i.zst {
         c.n_forms = c.n_forms.min(2);
-        c.n_values = 4;
+        c.n_values = 5;
         c.use_large = false;
         *depth = (*depth).min(4);
     }
@@ -195,6 +195,29 @@ impl<'a> crate::catalogue::StackVisitor for StackAllocJobs<'a> {
     }
 }
 
+/// dictionary-coded regions with large dictionaries / three generations (scripted seed states)
+fn dict_seed_jobs(out: &mut Vec<Job>, seeds: &[u8], depth: usize) {
+    use crate::m_dict::{Alphabet, DictCfg, DictMachine};
+    for &seed in seeds {
+        let cfg = DictCfg { seed, alphabet: Alphabet::Relative, max_merges: 1 };
+        out.push(job(move || Box::new(DictMachine::new(cfg.clone())), Mode::Bfs(BfsCfg::new(depth)), false));
+    }
+}
+
+/// entries used for the "large history first" families (more than 65535 items before the explored ops)
+fn prefill_entry(i: &Info) -> bool {
+    [
+        "StringRegion",
+        "ConsecutiveIndexPairs<StringRegion, IndexOptimized>",
+        "ConsecutiveIndexPairs<OwnedRegion<u8>, Vec<usize>>",
+        "ColumnsRegion<ConsecutiveIndexPairs<StringRegion, IndexOptimized>, IndexOptimized>",
+        "SliceRegion<ConsecutiveIndexPairs<StringRegion, IndexOptimized>, IndexOptimized>",
+        "SliceRegion<MirrorRegion<u8>>",
+        "CollapseSequence<StringRegion>",
+    ]
+    .contains(&i.name.as_str())
+}
+
 fn life(
     out: &mut Vec<Job>,
     cfg: LifeCfg,
@@ -256,6 +279,9 @@ pub fn jobs(prop: &str, tier: &str) -> Vec<Job> {
             let mut c = LifeCfg::new("C01");
             c.script = 9; // only to tell the machine names apart
             life(&mut out, c, if thorough { 5 } else { 4 }, &[], &|i| !i.zst, &|_, _| {});
+            // coded regions "for data covered by the statistics they were built from": in-statistics strings
+            // must be accepted and read back, also with hundreds of dictionary entries / three generations
+            dict_seed_jobs(&mut out, &[1, 6, 7], if thorough { 2 } else { 1 });
         }
         "C02" => {
             let mut c = LifeCfg::new("C02");
@@ -266,6 +292,15 @@ pub fn jobs(prop: &str, tier: &str) -> Vec<Job> {
             let devs: &[(usize, usize, u8)] =
                 if thorough { &[(256, 1, 0), (64, 2, 0), (64, 2, 1), (1100, 0, 0), (4200, 0, 1)] } else { &[(48, 1, 0), (24, 2, 1), (300, 0, 0), (1100, 0, 1)] };
             life(&mut out, c, if thorough { 6 } else { 4 }, devs, &|_| true, &|_, _| {});
+            if thorough {
+                let mut c = LifeCfg::new("C02");
+                c.clear = true;
+                c.reserve_items = true;
+                c.n_forms = 1;
+                c.n_values = 3;
+                c.prefill = 70_000;
+                life(&mut out, c, 2, &[], &prefill_entry, &|_, _| {});
+            }
             // coded regions after merge_regions (shared partial bytes, dictionary codes): their own
             // machines re-read every issued index after every step as well
             {
@@ -288,6 +323,13 @@ pub fn jobs(prop: &str, tier: &str) -> Vec<Job> {
             let mut v = CloneJobs { out: &mut out, depth: if thorough { 7 } else { 5 }, max_clones: if thorough { 2 } else { 1 } };
             crate::catalogue::visit_all(&mut v);
             stacks(&mut out, StackOracle::Sequence, if thorough { 5 } else { 3 }, &[], 3);
+            // clone_from between two coded Huffman containers with different code tables
+            {
+                use crate::m_huff::*;
+                for p in [small_profiles(2).into_iter().find(|p| p.name == "counts[2, 1]").unwrap(), fib_profile(6)] {
+                    out.push(job(move || Box::new(HuffMachine::<u8>::new(p.clone(), 0)), Mode::Bfs(BfsCfg::new(if thorough { 3 } else { 2 })), false));
+                }
+            }
         }
         "C04" => {
             let mut c = LifeCfg::new("C04");
@@ -379,6 +421,7 @@ pub fn jobs(prop: &str, tier: &str) -> Vec<Job> {
                     add(seed, Alphabet::Relative, 1, 1);
                 }
             }
+            dict_seed_jobs(&mut out, &[6, 7], if thorough { 2 } else { 1 });
         }
         "C08" => {
             let mut c = LifeCfg::new("C08");
@@ -390,6 +433,16 @@ pub fn jobs(prop: &str, tier: &str) -> Vec<Job> {
             c.n_values = 3;
             let devs: &[(usize, usize, u8)] = if thorough { &[(48, 2, 0), (48, 2, 1)] } else { &[(24, 2, 1)] };
             life(&mut out, c, if thorough { 6 } else { 5 }, devs, &|_| true, &|_, _| {});
+            {
+                // a large history (70 000 items) before the clear
+                let mut c = LifeCfg::new("C08");
+                c.twin = Twin::FreshAtClear;
+                c.clear = true;
+                c.n_forms = 1;
+                c.n_values = 3;
+                c.prefill = 70_000;
+                life(&mut out, c, 2, &[], &prefill_entry, &|_, _| {});
+            }
             // FlatStack::clear, incl. stacks whose region was built by merge_capacity (coded regions)
             stacks(&mut out, StackOracle::Sequence, if thorough { 5 } else { 4 }, &[], 3);
         }
@@ -406,6 +459,7 @@ pub fn jobs(prop: &str, tier: &str) -> Vec<Job> {
             let devs: &[(usize, usize, u8)] = if thorough { &[(48, 2, 0)] } else { &[(24, 1, 0)] };
             life(&mut out, c, if thorough { 5 } else { 4 }, devs, &|_| true, &|_, _| {});
             stacks(&mut out, StackOracle::Presize, if thorough { 5 } else { 4 }, &[], 3);
+            dict_seed_jobs(&mut out, &[6, 7], if thorough { 2 } else { 1 });
         }
         "C11" => {
             let mut c = LifeCfg::new("C11");
@@ -467,6 +521,7 @@ pub fn jobs(prop: &str, tier: &str) -> Vec<Job> {
         "C14" => {
             let mut c = LifeCfg::new("C14");
             c.o_owned_laws = true;
+            c.clone_replace = true;
             c.n_forms = usize::MAX;
             life(&mut out, c, if thorough { 3 } else { 2 }, &[], &|_| true, &|_, _| {});
         }
